@@ -137,7 +137,7 @@ func Worker(ctx *common.Ctx) {
 	}
 	for _, src := range job.Probes {
 		o := common.EvalTimeout(scope, src, evalLimit)
-		res.Probes = append(res.Probes, common.ShowOutcome(o))
+		res.Probes = append(res.Probes, stripAddr(common.ShowOutcome(o)))
 		res.ProbeMsg = append(res.ProbeMsg, o.Msg)
 	}
 	out, _ := json.Marshal(&res)
@@ -145,6 +145,24 @@ func Worker(ctx *common.Ctx) {
 		panic(err)
 	}
 	os.Exit(0)
+}
+
+// stripAddr removes the {c000123456} addresses slip prints for functions, methods and instances.
+func stripAddr(s string) string {
+	for {
+		i := strings.Index(s, " {c0")
+		if i < 0 {
+			i = strings.Index(s, " {0x")
+		}
+		if i < 0 {
+			return s
+		}
+		j := strings.IndexByte(s[i:], '}')
+		if j < 0 {
+			return s
+		}
+		s = s[:i] + s[i+j+1:]
+	}
 }
 
 // flat prints a form on one line, readably.
